@@ -525,6 +525,356 @@ def afterCalls (g : Reg) (q : Quant) : Obj → List Call → Obj
   | o, [] => o
   | o, c :: cs => afterCalls g q (call g q o c).1 cs
 
+/-! ### objects that come out of an operation
+
+`ObtainQuantity` in its mapping and list forms, `Quantity._CreateDerived`, the result quantity of
+`UnitDatabase.Sum/Subtract/Multiply/Divide` for an object of ONE category, `Array._DoOperation` /
+`Scalar._DoOperation`, the pickle round trip (`Quantity.__reduce__` → `_ObtainReduced`) and
+`CreateWithQuantity`.  A produced object is (quantity, values): nothing else is stored. -/
+
+/-- one item of `category_to_unit_and_exps`: category, unit, exponent -/
+abbrev Entry := Sym × Sym × Int
+
+/-- "every unit must belong to the quantity type of its category" (the cache miss of the composing form
+of `ObtainQuantity`; `_CreateDerived(validate_category_and_units=True)` makes the same two look-ups) -/
+def composingOK (g : Reg) : List Entry → Except ErrKind Unit
+  | [] => .ok ()
+  | (c, u, _) :: es =>
+    match g.cat? c with
+    | none => .error .units
+    | some ci =>
+      match g.db.checkQuantityTypeUnit ci.qtype u with
+      | .error e => .error e
+      | .ok _ => composingOK g es
+
+/-- `Quantity(mapping, None)`: a derived quantity -/
+def obtainComposing (g : Reg) (es : List Entry) : Except ErrKind Quant :=
+  match composingOK g es with
+  | .error e => .error e
+  | .ok _ => .ok .derived
+
+/-- `ObtainQuantity(mapping)`: "although passed as composing, it's a simple case" when the mapping has
+ONE category with exponent 1 (then the simple construction is made), else the composing form (mappings
+with a repeated category are not modelled) -/
+def obtainMapping (g : Reg) : List Entry → Except ErrKind Quant
+  | [(c, u, e)] => if e = 1 then mkQuant g c u else obtainComposing g [(c, u, e)]
+  | es => obtainComposing g es
+
+/-- `Quantity._CreateDerived(mapping, validate_category_and_units=True)` (= `CreateDerived`) -/
+def createDerived (g : Reg) (es : List Entry) : Except ErrKind Quant :=
+  match composingOK g es with
+  | .error e => .error e
+  | .ok _ => obtainMapping g es
+
+/-- the `category` argument of the list form -/
+inductive CatArg
+  | none
+  | one (c : Sym)
+  | many (cs : List Sym)
+deriving DecidableEq, Repr
+
+/-- `zip(category, unit)` -/
+def zipEntries : List Sym → List (Sym × Int) → List Entry
+  | c :: cs, (u, e) :: us => (c, u, e) :: zipEntries cs us
+  | _, _ => []
+
+/-- `ObtainQuantity([(unit, exp), …], category)`: ONE unit with exponent 1 is the simple case (the first
+category of a list is taken, `IndexError` for an empty one; no category = the default category of the
+unit), otherwise the categories must be a list and the mapping form takes over -/
+def obtainList (g : Reg) (units : List (Sym × Int)) (cat : CatArg) : Except ErrKind Quant :=
+  let composing : Except ErrKind Quant :=
+    match cat with
+    | .many cs => obtainMapping g (zipEntries cs units)
+    | _ => .error .assertion
+  match units with
+  | [(u, e)] =>
+    if e = 1 then
+      match cat with
+      | .none => mkQuantNoCat g u
+      | .one c => mkQuant g c u
+      | .many [] => .error .index
+      | .many (c :: _) => mkQuant g c u
+    else composing
+  | _ => composing
+
+namespace Val
+
+def neg : Val → Val
+  | fin a => fin (-a)
+  | posInf => negInf
+  | negInf => posInf
+  | nan => nan
+
+/-- IEEE `-` -/
+def sub (a b : Val) : Val := add a (neg b)
+
+end Val
+
+inductive BinOp | add | sub | mul | div
+deriving DecidableEq, Repr
+
+/-- `lambda a, b: a <op> b` on Python floats -/
+def BinOp.apply : BinOp → Val → Val → Except ErrKind Val
+  | .add, a, b => .ok (Val.add a b)
+  | .sub, a, b => .ok (Val.sub a b)
+  | .mul, a, b => .ok (Val.mul a b)
+  | .div, a, b => Val.div a b
+
+/-- the operation element by element with a fixed number on one side (`_ValueGenerator`) -/
+def opElems (op : BinOp) (x : Val) (numLeft : Bool) : List Val → Except ErrKind (List Val)
+  | [] => .ok []
+  | v :: vs =>
+    match (if numLeft then op.apply x v else op.apply v x) with
+    | .error e => .error e
+    | .ok w =>
+      match opElems op x numLeft vs with
+      | .error e => .error e
+      | .ok ws => .ok (w :: ws)
+
+/-- the values of an object as they are stored (no memoised verdict) -/
+inductive Shape
+  | scalar (v : Val)
+  | fraction (v : Val)
+  | array (a : ArrVal)
+deriving DecidableEq, Repr
+
+/-- a NEW object with these values -/
+def Shape.obj : Shape → Obj
+  | .scalar v => .scalar v
+  | .fraction v => .fraction v
+  | .array a => .array a Cache.fresh
+
+/-- the quantity of `<object of ONE category> <op> <number>` (the other side is `Quantity.CreateEmpty()`):
+`Sum`/`Subtract` copy the object's quantity through `CreateCopyInstance` (mapping form, not validated),
+`Multiply`/`Divide` go through `CreateDerived` (validated) with the exponent `0 ± 1` when the number is on
+the left.  Operations on an object whose quantity is already derived are not modelled. -/
+def opNumberQuant (g : Reg) (q : Quant) (op : BinOp) (numLeft : Bool) : Except ErrKind Quant :=
+  match q with
+  | .derived => .error .other
+  | .simple c u _ =>
+    match op with
+    | .add => obtainMapping g [(c.name, u, 1)]
+    | .sub => obtainMapping g [(c.name, u, 1)]
+    | .mul => createDerived g [(c.name, u, 1)]
+    | .div => createDerived g [(c.name, u, if numLeft then -1 else 1)]
+
+/-- `Array._DoOperation` with a plain number on one side (flat values; list, tuple or numpy alike: a zero
+divisor is an error here, numpy's inf/nan answer is not modelled), and `Scalar._DoOperation` with a
+number: the scalar keeps its quantity object, except `number / scalar` which asks `Divide`.
+FractionScalar has no arithmetic (`TypeError`). -/
+def opNumber (g : Reg) (q : Quant) (s : Shape) (op : BinOp) (x : Val) (numLeft : Bool) :
+    Except ErrKind (Quant × Shape) :=
+  match s with
+  | .fraction _ => .error .type
+  | .array (.nested _ _ _) => .error .other          -- not modelled
+  | .array (.flat kind vs) =>
+    match opNumberQuant g q op numLeft with
+    | .error e => .error e
+    | .ok q' =>
+      match opElems op x numLeft vs with
+      | .error e => .error e
+      | .ok ws => .ok (q', .array (.flat kind ws))
+  | .scalar v =>
+    if numLeft && op == .div then
+      match opNumberQuant g q .div true with
+      | .error e => .error e
+      | .ok q' =>
+        match BinOp.div.apply x v with
+        | .error e => .error e
+        | .ok w => .ok (q', .scalar w)
+    else
+      match (if numLeft then op.apply x v else op.apply v x) with
+      | .error e => .error e
+      | .ok w => .ok (q, .scalar w)
+
+/-- element by element: `operation(value1, Convert(quantity_type, unit2, unit1, value2))` -/
+def opPairs (op : BinOp) (conv : Option (UnitRow × UnitRow)) : List Val → List Val → Except ErrKind (List Val)
+  | v :: vs, w :: ws =>
+    let w' : Except ErrKind Val := match conv with
+      | none => .ok w
+      | some (this, other) => convRowsV this other w
+    match w' with
+    | .error e => .error e
+    | .ok w' =>
+      match op.apply v w' with
+      | .error e => .error e
+      | .ok r =>
+        match opPairs op conv vs ws with
+        | .error e => .error e
+        | .ok rs => .ok (r :: rs)
+  | _, _ => .ok []
+
+/-- `quantity1.CreateCopyInstance(mapping1)`, `quantity2.CreateCopyInstance(mapping2)`: both are obtained
+again through the mapping form; the first one is the quantity of the result -/
+def reobtainPair (g : Reg) (e1 e2 : Entry) : Except ErrKind Quant :=
+  match obtainMapping g [e1] with
+  | .error e => .error e
+  | .ok q1' =>
+    match obtainMapping g [e2] with
+    | .error e => .error e
+    | .ok _ => .ok q1'
+
+/-- the rows `Convert(quantity_type, unit2, unit1, value2)` works with (none: same unit, value as it is) -/
+def matchConv (g : Reg) (qt u2 u1 : Sym) : Except ErrKind (Option (UnitRow × UnitRow)) :=
+  if u2 == u1 then .ok none else
+  match convRowsOf g qt u2 u1 with
+  | .error e => .error e
+  | .ok rows => .ok (some rows)
+
+/-- `UnitDatabase._DoOperationWithSameQuantity` (`Sum`, `Subtract`) on two simple quantities: equal
+quantities are kept; otherwise `_MatchQuantities` rewrites the second operand in the unit of the first
+when both categories have the same quantity type, both quantities are re-obtained through the mapping
+form and their units must agree (`InvalidOperationError`).  Answer: the quantity of the result and the
+rows the second operand's values are converted with. -/
+def sameQuantityOp (g : Reg) (q1 q2 : Quant) : Except ErrKind (Quant × Option (UnitRow × UnitRow)) :=
+  match q1, q2 with
+  | .simple c1 u1 _, .simple c2 u2 _ =>
+    if c1.name == c2.name && u1 == u2 then .ok (q1, none) else
+    match g.cat? c1.name, g.cat? c2.name with
+    | some i1, some i2 =>
+      if i1.qtype == i2.qtype then
+        match matchConv g i2.qtype u2 u1 with
+        | .error e => .error e
+        | .ok conv =>
+          match reobtainPair g (c1.name, u1, 1) (c2.name, u1, 1) with
+          | .error e => .error e
+          | .ok q => .ok (q, conv)
+      else
+        match reobtainPair g (c1.name, u1, 1) (c2.name, u2, 1) with
+        | .error e => .error e
+        | .ok q => if u1 == u2 then .ok (q, none) else .error .units
+    | _, _ => .error .units
+  | _, _ => .error .other          -- derived operands: not modelled
+
+/-- `Array + Array`, `Array - Array`, `Scalar ± Scalar` (flat arrays of the same length, else
+`ValueError`; other operations and mixed operands are not modelled) -/
+def opObjects (g : Reg) (q1 : Quant) (s1 : Shape) (q2 : Quant) (s2 : Shape) (op : BinOp) :
+    Except ErrKind (Quant × Shape) :=
+  if op == .mul || op == .div then .error .other else
+  match s1, s2 with
+  | .scalar v, .scalar w =>
+    match sameQuantityOp g q1 q2 with
+    | .error e => .error e
+    | .ok (q, conv) =>
+      match opPairs op conv [v] [w] with
+      | .ok [r] => .ok (q, .scalar r)
+      | .ok _ => .error .other
+      | .error e => .error e
+  | .array (.flat kind vs), .array (.flat _ ws) =>
+    if vs.length != ws.length then .error .value else
+    match sameQuantityOp g q1 q2 with
+    | .error e => .error e
+    | .ok (q, conv) =>
+      match opPairs op conv vs ws with
+      | .error e => .error e
+      | .ok rs => .ok (q, .array (.flat kind rs))
+  | _, _ => .error .other
+
+/-- `pickle.loads(pickle.dumps(x))` of a Scalar / FixedArray: the quantity travels as its mapping
+(`Quantity.__reduce__`) and is obtained again from it (`_ObtainReduced`); the values travel as they are -/
+def pickled (g : Reg) (q : Quant) (s : Shape) : Except ErrKind (Quant × Shape) :=
+  match q with
+  | .derived => .error .other
+  | .simple c u _ =>
+    match obtainMapping g [(c.name, u, 1)] with
+    | .error e => .error e
+    | .ok q' => .ok (q', s)
+
+/-- `Scalar.CreateCopy(unit=…, category=…)` without a new value: `GetAbstractValue(unit)` —
+`Quantity.ConvertScalarValue`, the value as it is for the own unit — and a quantity obtained for (unit,
+category) like `Array.CreateCopy` does -/
+def createCopyScalar (g : Reg) (q : Quant) (v : Val) (unit cat : Option Sym) : Except ErrKind (Quant × Val) :=
+  match q with
+  | .derived => .error .other
+  | .simple c u this =>
+    let value : Except ErrKind Val := match unit with
+      | none => .ok v
+      | some u' =>
+        if u == u' then .ok v else
+        match g.db.getInfo c.qtype u' true with
+        | .error e => .error e
+        | .ok other => convRowsV this other v
+    match value with
+    | .error e => .error e
+    | .ok v' =>
+      match unit, cat with
+      | none, none => .ok (q, v')
+      | none, some _ => .error .type
+      | some u', some c' =>
+        match mkQuant g c' u' with
+        | .error e => .error e
+        | .ok q' => .ok (q', v')
+      | some u', none =>
+        if c.name == 0 then .error .other else
+        match mkQuant g c.name u' with
+        | .error e => .error e
+        | .ok q' => .ok (q', v')
+
+/-- how an object came to be -/
+inductive Prov
+  /-- `Scalar(c, v, u)`, `FractionScalar(c, v, u)`, `Array(c, values, u)`, `FixedArray(n, c, values, u)` -/
+  | direct (c u : Sym) (s : Shape)
+  /-- `X.CreateWithQuantity(ObtainQuantity(mapping), values)` / `X(ObtainQuantity(mapping), values)` -/
+  | viaMapping (es : List Entry) (s : Shape)
+  /-- the same with the list form `ObtainQuantity([(unit, exp), …], category)` -/
+  | viaList (units : List (Sym × Int)) (cat : CatArg) (s : Shape)
+  /-- `x <op> number` / `number <op> x` -/
+  | opNumber (p : Prov) (op : BinOp) (x : Val) (numLeft : Bool)
+  /-- `x + y`, `x - y` -/
+  | opObjects (p1 p2 : Prov) (op : BinOp)
+  /-- pickle round trip -/
+  | pickle (p : Prov)
+  /-- `x.CreateCopy(unit=…, category=…)` of an Array / FixedArray / Scalar -/
+  | copy (p : Prov) (unit cat : Option Sym)
+  /-- `CheckValidity()` / `IsValid()` calls on the object before it is used further (their answers are
+  dropped; what an Array memoises stays in that Array: every operation builds its result from the values) -/
+  | validated (p : Prov) (cs : List Call)
+deriving Repr
+
+/-- the object a production path yields -/
+def build (g : Reg) : Prov → Except ErrKind (Quant × Shape)
+  | .direct c u s =>
+    match mkQuant g c u with
+    | .error e => .error e
+    | .ok q => .ok (q, s)
+  | .viaMapping es s =>
+    match obtainMapping g es with
+    | .error e => .error e
+    | .ok q => .ok (q, s)
+  | .viaList units cat s =>
+    match obtainList g units cat with
+    | .error e => .error e
+    | .ok q => .ok (q, s)
+  | .opNumber p op x numLeft =>
+    match build g p with
+    | .error e => .error e
+    | .ok (q, s) => opNumber g q s op x numLeft
+  | .opObjects p1 p2 op =>
+    match build g p1 with
+    | .error e => .error e
+    | .ok (q1, s1) =>
+      match build g p2 with
+      | .error e => .error e
+      | .ok (q2, s2) => opObjects g q1 s1 q2 s2 op
+  | .pickle p =>
+    match build g p with
+    | .error e => .error e
+    | .ok (q, s) => pickled g q s
+  | .copy p unit cat =>
+    match build g p with
+    | .error e => .error e
+    | .ok (q, .array a) =>
+      match createCopy g q a Cache.fresh unit cat with
+      | .ok (q', .array a' _) => .ok (q', .array a')
+      | .ok _ => .error .other          -- unreachable: `createCopy` yields an array
+      | .error e => .error e
+    | .ok (q, .scalar v) =>
+      match createCopyScalar g q v unit cat with
+      | .ok (q', v') => .ok (q', .scalar v')
+      | .error e => .error e
+    | .ok (_, .fraction _) => .error .other            -- CreateCopy of a FractionScalar: not modelled
+  | .validated p _ => build g p
+
 /-! ### `UnitDatabase.AddCategory` -/
 
 structure AddArgs where
@@ -669,5 +1019,82 @@ def addCategory (g : Reg) (a : AddArgs) : Except ErrKind (Reg × CatInfo) :=
     match addCategoryCore g a' with
     | .error e => .error e
     | .ok info => .ok ({ g with cats := info :: g.cats }, info)
+
+/-! ### `AddCategory` with an explicit `None` for `is_min_exclusive`, `is_max_exclusive`, `caption` -/
+
+/-- the arguments as they are passed: the two flags and the caption may be `None` -/
+structure AddArgsRaw where
+  /-- every other argument (the flag/caption fields of `base` are not read) -/
+  base : AddArgs
+  minExcl : Option Bool := some false
+  maxExcl : Option Bool := some false
+  caption : Option Sym := some 0
+deriving Repr
+
+/-- the source category of the `from_category` step, when there is one -/
+def rawSource (g : Reg) (r : AddArgsRaw) : Option CatInfo :=
+  match truthyName r.base.fromCategory with
+  | some f => g.cat? f
+  | none => none
+
+/-- the flags and the caption in force: with `from_category` an explicit `None` is inherited from the
+source ("if is_min_exclusive is None: is_min_exclusive = category_info.is_min_exclusive", likewise the
+maximum flag and the caption); without a source `None` stays and is falsy.  Nothing before that step
+reads them, and the step leaves a given value alone. -/
+def resolveRaw (g : Reg) (r : AddArgsRaw) : AddArgs :=
+  { r.base with
+    minExcl := (match r.minExcl with
+      | some b => b
+      | none => match rawSource g r with | some s => s.minExcl | none => false)
+    maxExcl := (match r.maxExcl with
+      | some b => b
+      | none => match rawSource g r with | some s => s.maxExcl | none => false)
+    caption := (match r.caption with
+      | some c => c
+      | none => match rawSource g r with | some s => s.caption | none => 0) }
+
+/-- `UnitDatabase.AddCategory(...)` with arguments that may be `None` -/
+def addCategoryRaw (g : Reg) (r : AddArgsRaw) : Except ErrKind (Reg × CatInfo) :=
+  addCategory g (resolveRaw g r)
+
+/-! ### `GetDefaultValue`, `CheckValueForCategory`, `ScalarMinMaxValidator` -/
+
+/-- `UnitDatabase.GetDefaultValue(category)` -/
+def getDefaultValue (g : Reg) (c : Sym) : Except ErrKind Val :=
+  match g.cat? c with
+  | none => .error .units
+  | some ci => .ok ci.defaultValue
+
+/-- `ObtainQuantity(unit, category)` with a unit that may be `None` ("unit is given by the category":
+`GetDefaultUnit(category)`) -/
+def obtainFor (g : Reg) (c : Sym) : Option Sym → Except ErrKind Quant
+  | some u => mkQuant g c u
+  | none =>
+    match g.cat? c with
+    | none => .error .units
+    | some ci => mkQuant g c ci.defaultUnit
+
+/-- `UnitDatabase.CheckValueForCategory(category, value, unit=None)` -/
+def checkValueForCategory (g : Reg) (c : Sym) (v : Val) (u : Option Sym) : Except VErr Unit :=
+  match obtainFor g c u with
+  | .error e => .error (.other e)
+  | .ok q => checkValue g q v
+
+/-- `ScalarMinMaxValidator._ScalarCheckMsgPredicate(scalar)`: the quantity is obtained AGAIN from the
+scalar's unit and category, `CheckValue(value, use_literals=True)`; a `ValueError` becomes the message
+(here: the error the message is made of), `None` = no complaint; anything else propagates.  Scalars with
+a derived quantity are not modelled. -/
+def validatorPredicate (g : Reg) (q : Quant) (v : Val) : Except ErrKind (Option VErr) :=
+  match q with
+  | .derived => .error .other
+  | .simple c u _ =>
+    match mkQuant g c.name u with
+    | .error e => .error e
+    | .ok q' =>
+      match checkValue g q' v with
+      | .ok _ => .ok none
+      | .error (.validation op m w) => .ok (some (.validation op m w))
+      | .error (.other e) => if e == .value then .ok (some (.other e)) else .error e
+
 
 end Barril.Valid
